@@ -47,6 +47,7 @@ fn int_lex<const N: usize>() {
 }
 
 #[kani::proof]
+#[kani::stub(std::mem::drop, crate::lex::verif_kani::common::mem_drop__leak)]
 #[kani::unwind(3)]
 #[kani::stub(crate::lex::expect, crate::lex::verif_kani::common::expect__contract)]
 fn i64_lex__all_ascii_len1() {
@@ -61,6 +62,7 @@ fn i64_lex__all_ascii_len2() {
 }
 
 #[kani::proof]
+#[kani::stub(std::mem::drop, crate::lex::verif_kani::common::mem_drop__leak)]
 #[kani::unwind(5)]
 #[kani::stub(crate::lex::expect, crate::lex::verif_kani::common::expect__contract)]
 fn i64_lex__all_ascii_len3() {
@@ -200,6 +202,7 @@ macro_rules! rejects {
 }
 
 #[kani::proof]
+#[kani::stub(std::mem::drop, crate::lex::verif_kani::common::mem_drop__leak)]
 #[kani::unwind(7)]
 #[kani::stub(crate::lex::expect, crate::lex::verif_kani::common::expect__contract)]
 fn i64_lex__octal_does_not_split() {
@@ -209,6 +212,7 @@ fn i64_lex__octal_does_not_split() {
 }
 
 #[kani::proof]
+#[kani::stub(std::mem::drop, crate::lex::verif_kani::common::mem_drop__leak)]
 #[kani::unwind(7)]
 #[kani::stub(crate::lex::expect, crate::lex::verif_kani::common::expect__contract)]
 fn i64_lex__hex_and_negative_forms() {
@@ -226,6 +230,7 @@ fn i64_lex__hex_and_negative_forms() {
 // exact consumption.  Bounds: one decimal digit, optionally negative, every combination.
 
 #[kani::proof]
+#[kani::stub(std::mem::drop, crate::lex::verif_kani::common::mem_drop__leak)]
 #[kani::unwind(5)]
 #[kani::stub(crate::lex::expect, crate::lex::verif_kani::common::expect__contract)]
 #[kani::stub(<i64 as crate::lex::Lex>::lex, crate::lex::verif_kani::common::i64_lex__contract)]
@@ -280,6 +285,7 @@ fn int_range_lex__ordered_bounds() {
 
 /// single value => a..=a ; a single dot is not part of the literal
 #[kani::proof]
+#[kani::stub(std::mem::drop, crate::lex::verif_kani::common::mem_drop__leak)]
 #[kani::unwind(5)]
 #[kani::stub(crate::lex::expect, crate::lex::verif_kani::common::expect__contract)]
 #[kani::stub(<i64 as crate::lex::Lex>::lex, crate::lex::verif_kani::common::i64_lex__contract)]
@@ -319,6 +325,7 @@ fn int_range_lex__single_value() {
 
 /// `a..` without an upper bound, and a malformed upper bound, are rejected.
 #[kani::proof]
+#[kani::stub(std::mem::drop, crate::lex::verif_kani::common::mem_drop__leak)]
 #[kani::unwind(6)]
 #[kani::stub(crate::lex::expect, crate::lex::verif_kani::common::expect__contract)]
 #[kani::stub(<i64 as crate::lex::Lex>::lex, crate::lex::verif_kani::common::i64_lex__contract)]
